@@ -16,12 +16,30 @@ import (
 type MonC15 struct {
 	baseMon
 	pre map[string]string // name?query -> cached JSON before the step (hooks)
+	// loadedStep: name?query -> step at whose end the resource was first seen
+	// loaded in the cache (hooks), forgotten when it leaves the cache
+	loadedStep map[string]int
 }
 
 func NewMonC15() *MonC15 { m := &MonC15{}; m.init("C15"); return m }
 
 func (m *MonC15) OnStepEnd(w *World, step int) {
-	defer func() { m.pre = cacheJSON(w) }()
+	defer func() {
+		m.pre = cacheJSON(w)
+		if m.loadedStep == nil {
+			m.loadedStep = map[string]int{}
+		}
+		for k := range m.loadedStep {
+			if _, ok := m.pre[k]; !ok {
+				delete(m.loadedStep, k)
+			}
+		}
+		for k := range m.pre {
+			if _, ok := m.loadedStep[k]; !ok {
+				m.loadedStep[k] = step
+			}
+		}
+	}()
 	if step >= len(w.Script) {
 		return
 	}
@@ -47,14 +65,91 @@ func (m *MonC15) OnStepEnd(w *World, step int) {
 	if !delivered {
 		return
 	}
+	if class == "refetch/answer" || class == "get/answer" {
+		// whether the answered get is a re-fetch is a fact of this run's log, not of
+		// the script (a shrunk script may have lost the first fetch)
+		class = "get/answer"
+		for _, e := range log[start:] {
+			if e.Kind != "mq_complete" || !strings.HasPrefix(e.Subject, "get.") {
+				continue
+			}
+			if m.pre != nil {
+				// a re-fetch is a get requested for a resource that was loaded already
+				// (a first get stays a first get even if an aliasing query's answer
+				// has loaded the resource while it was outstanding)
+				reqStep := -1
+				for _, p := range log[:start] {
+					if p.Kind == "mq_req" && p.Req == e.Req {
+						reqStep = p.Step
+					}
+				}
+				if ls, loaded := m.loadedStep[e.Subject[4:]+"?"+e.Query]; loaded && reqStep >= 0 && ls < reqStep {
+					class = "refetch/answer"
+				}
+				continue
+			}
+			for _, p := range log[:start] {
+				if p.Kind == "mq_complete" && p.Subject == e.Subject && p.Query == e.Query && p.Err == "" && strings.Contains(string(p.Payload), `"result"`) && !strings.Contains(string(p.Payload), `"error"`) {
+					class = "refetch/answer"
+				}
+			}
+		}
+	}
 	if json.Valid([]byte(op.P)) {
 		m.nontriv = true
 	}
 	contain := strings.HasPrefix(class, "event/") || strings.HasPrefix(class, "query/") || strings.HasPrefix(class, "refetch/") || strings.HasPrefix(class, "system/")
+	if class == "get/answer" {
+		// a malformed answer to a first get makes an error entry for that request; it
+		// must not touch what is already loaded (such as the resource another
+		// query's answer has loaded under the same normalised query meanwhile)
+		if post := cacheJSON(w); m.pre != nil && post != nil {
+			released := map[string]bool{}
+			for _, e := range log[start:] {
+				if e.Kind == "mq_unsub" && strings.HasPrefix(e.Subject, "event.") {
+					released[e.Subject[6:]] = true
+				}
+			}
+			for k, v := range m.pre {
+				name, _ := splitRID(k)
+				if released[name] {
+					continue
+				}
+				if nv, ok := post[k]; !ok || (nv != v && !sameJSONText(nv, v)) {
+					m.violate(w, "loaded_resource_hit_by_malformed_get_answer", "the malformed get answer %q changed or dropped the loaded %s (was %s, now %s)", trunc(op.P, 120), k, trunc(v, 150), trunc(nv, 150))
+					break
+				}
+			}
+		}
+	}
 	if !contain {
 		return
 	}
 	// nothing derived from the message may reach a client
+	if strings.HasPrefix(class, "query/") {
+		// the answer also ends the query event's lock on the resource queue: events
+		// and access verdicts that arrived during the lock are released in this
+		// step and frame legitimately; then only the cache check applies
+		for _, e := range log[start:] {
+			if e.Kind != "mq_complete" || !strings.HasPrefix(e.Subject, "_EVQ.") {
+				continue
+			}
+			name := w.qevSubjects[e.Subject]
+			lockT := -1
+			for _, p := range log[:start] {
+				if p.Kind == "mq_req" && p.Subject == e.Subject {
+					lockT = p.T
+					break
+				}
+			}
+			for _, p := range log[:start] {
+				if lockT >= 0 && p.T > lockT && ((p.Kind == "mq_ev" && strings.HasPrefix(p.Subject, "event."+name+".")) || (p.Kind == "mq_complete" && p.Subject == "access."+name)) {
+					m.class("query_answer_releases_queued_work")
+					goto cache
+				}
+			}
+		}
+	}
 	for _, e := range log[start:] {
 		if e.Kind != "frame" {
 			continue
@@ -68,6 +163,7 @@ func (m *MonC15) OnStepEnd(w *World, step int) {
 			break
 		}
 	}
+cache:
 	// the cache stays unchanged
 	post := cacheJSON(w)
 	if m.pre != nil && post != nil {
